@@ -266,6 +266,7 @@ type Exec struct {
 	caller AV
 	traceReturns bool
 	cli    bool // interpreting cmd/jpgo: library calls are modelled, not inlined
+	pendingFV []AV // captured variables for the function literal about to be entered
 	ord    func(a, b prov) (int, bool) // order hypothesis on tagged numbers/strings (rule K-ORDER): -1, 0, +1
 	cliGlobals map[string]string // package-level variables of the command initialised to os.Stdout / os.Stderr / os.Stdin
 }
@@ -643,6 +644,18 @@ func (x *Exec) runUp(fn *ssa.Function, args []AV, h *Heap, p pathInfo, up *stack
 	for i, prm := range fn.Params {
 		if i < len(args) {
 			fr.vals[prm] = args[i]
+		}
+	}
+	// free variables of a function literal: the closure's bindings
+	if len(fn.FreeVars) > 0 {
+		fvs := x.pendingFV
+		x.pendingFV = nil
+		if len(fvs) != len(fn.FreeVars) {
+			x.gap("function literal "+fn.Name()+" entered without its captured variables", fn.Pos())
+			return
+		}
+		for i, fv := range fn.FreeVars {
+			fr.vals[fv] = fvs[i]
 		}
 	}
 	d := x.depth
@@ -1087,7 +1100,15 @@ func (x *Exec) simple(in ssa.Instruction, fr *frame, h *Heap) bool {
 	case *ssa.Phi:
 		// reached only in the entry block (no predecessor): undefined
 	case *ssa.MakeClosure:
-		fr.vals[in] = AV{k: 'U', what: "closure"}
+		// a function literal with its captured variables (pointers to cells):
+		// the bindings live in a heap object so that they are part of the state
+		cf, _ := in.Fn.(*ssa.Function)
+		o := &aobj{kind: 's'}
+		for _, bnd := range in.Bindings {
+			o.fields = append(o.fields, x.val(fr, bnd))
+		}
+		id := h.alloc(o)
+		fr.vals[in] = AV{k: 'U', what: "closure", fn: cf, obj: id}
 	case *ssa.RunDefers:
 	case *ssa.Defer:
 		if !x.cli {
